@@ -19,7 +19,7 @@ BASES = {
     "r3": ("refuse",) * 3 + ("accept",),
     "r7": ("refuse",) * 7 + ("accept",),
     "r12": ("refuse",) * 12 + ("accept",),            # long enough for an uncapped exponential delay to pass five minutes
-    "u2": ("unreachable", "timeout", "accept"),       # failing connects that are OSError / TimeoutError, not ConnectionError
+    "u2": ("unreachable", "dns", "timeout", "accept"),       # failing connects that are OSError / TimeoutError, not ConnectionError
     "n2": ("noport", "noport", "accept"),             # serial port missing (SerialException)
 }
 GARBAGE = {"ebyte": b"\x01\x02\x03\x04\x05", "actisense": b"garbage\r\nA0000", "yd": b"\xff\xfe garbage\r\n00:00", "waveshare": b"\xaa\x55\x00\x01"}
